@@ -117,7 +117,8 @@ OrdMatches(DS, T) ==
 KeyLeavesMatch(DS, T) ==
     \A e \in T.cont : IsEntry(e) =>
         LET ks == SNode(DS, SPath(e)).keys
-        IN \A i \in DOMAIN ks :
+        IN /\ Len(KeysOfEntry(e)) = Len(ks)
+           /\ \A i \in DOMAIN ks :
               LET kp == Append(e, [n |-> ks[i], k |-> << >>])
               IN kp \in DOMAIN T.leaf /\ T.leaf[kp] = << KeysOfEntry(e)[i] >>
 
